@@ -16,8 +16,8 @@ Proof.
   - intros He. exfalso. apply (insert_non_empty _ _ _ He).
   - intros j0 h0 H0. destruct (decide (j0 = j)) as [->|?]; [by eapply (inv_keys _ HI)|].
     rewrite lookup_insert_ne in H0 by done. by eapply (inv_keys _ HI).
-  - intros j0 h0 H0. destruct (decide (j0 = j)) as [->|?].
-    + rewrite lookup_insert in H0. simplify_eq. exists j, h. simpl. split_and!; done.
+  - intros j0 h0 c H0 Hc. destruct (decide (j0 = j)) as [->|?].
+    + rewrite lookup_insert in H0. simplify_eq. exists j, h. simpl in *. split_and!; done.
     + rewrite lookup_insert_ne in H0 by done. exists j0, h0. done.
   - intros j1 j2 h1 h2 Hne H1 H2 Hm1.
     destruct (decide (j1 = j)) as [->|?]; [rewrite lookup_insert in H1; by simplify_eq|]. rewrite lookup_insert_ne in H1 by done.
@@ -66,6 +66,50 @@ Proof.
         pose proof (held_one _ _ _ Hth). unfold held_sum in *. lia.
       * intros i' th' H'. destruct (insert_cases _ _ _ _ _ _ Hth H') as [[-> ->]|[? H'']]; simpl; [|eauto].
         done.
+Qed.
+
+(* ----- BytesMut::unsplit: one handle of the thread absorbs another one's cells; one reference is released, never the last ----- *)
+Lemma unsplit_inv o s i th j1 j2 h1 h2 :
+  ords_ok o = true → Inv s → ths s !! i = Some th → t_mic th = Idle → t_hs th !! j1 = Some h1 → t_hs th !! j2 = Some h2 → j1 ≠ j2 →
+  h_mut h1 = true → h_mut h2 = true → freed s = false →
+  let '(K', ms, old) := rmw (o_dec o) pred s th in
+  Inv (upd s i (mk K' (length (msgs s)) (<[j1 := {| h_cells := h_cells h1 ∪ h_cells h2; h_mut := true |}]> (delete j2 (t_hs th))) (t_next th)
+         (if decide (old = 1) then DropLoad else Idle) (t_mine th)) ms).
+Proof.
+  intros Hok HI Hth Hmic Hj1 Hj2 Hne Hm1 Hm2 Hfr. destruct (ok_parts _ Hok) as (Hrel & _ & _). unfold rmw. rewrite Hrel.
+  assert (Hheld : held th ≥ 2).
+  { unfold held. rewrite <- (insert_id (t_hs th) j1 h1 Hj1). rewrite <- (insert_delete_insert (t_hs th)). rewrite map_size_insert_None by (by rewrite lookup_delete).
+    assert (delete j1 (t_hs th) !! j2 = Some h2) as H2 by (by rewrite lookup_delete_ne). pose proof (map_size_empty_iff (delete j1 (t_hs th))) as He.
+    destruct (size (delete j1 (t_hs th))) eqn:Es; [|lia]. destruct He as [He _]. rewrite (He eq_refl) in H2. by rewrite lookup_empty in H2. }
+  assert (HN : NoCloser s) by (eapply nocloser_of_idle_held; eauto; lia).
+  set (K' := if is_acq (o_dec o) then t_K th ∪ m_view (lastm s) else t_K th).
+  assert (HK : t_K th ⊆ K') by (unfold K'; destruct (is_acq _); set_solver).
+  set (hs' := <[j1 := {| h_cells := h_cells h1 ∪ h_cells h2; h_mut := true |}]> (delete j2 (t_hs th))).
+  assert (Hsz : size hs' = held th - 1).
+  { unfold hs', held. rewrite map_size_insert_Some by (rewrite lookup_delete_ne by done; eauto). rewrite map_size_delete, Hj2. simpl. lia. }
+  assert (Hlk : ∀ j0 h0, hs' !! j0 = Some h0 → (j0 = j1 ∧ h0 = {| h_cells := h_cells h1 ∪ h_cells h2; h_mut := true |}) ∨ (j0 ≠ j1 ∧ j0 ≠ j2 ∧ t_hs th !! j0 = Some h0)).
+  { intros j0 h0 H0. unfold hs' in H0. destruct (decide (j0 = j1)) as [->|?]; [rewrite lookup_insert in H0; simplify_eq; by left|].
+    rewrite lookup_insert_ne in H0 by done. apply lookup_delete_Some in H0 as [? H0]. right. done. }
+  assert (Hval : m_val (lastm s) ≠ 1). { destruct HN as [Hv _]. rewrite Hv. pose proof (held_one _ _ _ Hth). lia. }
+  destruct (decide (m_val (lastm s) = 1)) as [?|_]; [done|].
+  eapply (rmw_common s i th K' hs' _ Idle _ HI Hth Hfr HN ltac:(lia) HK).
+  - simpl. set_solver.
+  - intros He. exfalso. assert (size hs' = 0) by (by rewrite He, map_size_empty). lia.
+  - intros j0 h0 H0. destruct (Hlk _ _ H0) as [[-> _]|(_ & _ & H1)]; by eapply (inv_keys _ HI).
+  - intros j0 h0 c H0 Hc. destruct (Hlk _ _ H0) as [[-> ->]|(_ & _ & H1)]; [|exists j0, h0; done].
+    simpl in Hc. apply elem_of_union in Hc as [Hc|Hc]; [exists j1, h1|exists j2, h2]; done.
+  - intros ja jb ha hb Hab Ha Hb Hma.
+    destruct (Hlk _ _ Ha) as [[-> ->]|(Ha1 & Ha2 & Ha')]; destruct (Hlk _ _ Hb) as [[-> ->]|(Hb1 & Hb2 & Hb')]; cbn [h_cells h_mut] in *.
+    + done.
+    + pose proof (disj_in_old _ _ _ HI Hth j1 jb h1 hb ltac:(done) Hj1 Hb' Hm1). pose proof (disj_in_old _ _ _ HI Hth j2 jb h2 hb ltac:(done) Hj2 Hb' Hm2). set_solver.
+    + pose proof (disj_in_old _ _ _ HI Hth ja j1 ha h1 ltac:(done) Ha' Hj1 Hma). pose proof (disj_in_old _ _ _ HI Hth ja j2 ha h2 ltac:(done) Ha' Hj2 Hma). set_solver.
+    + by eapply (disj_in_old _ _ _ HI Hth ja jb).
+  - unfold Phase, upd; simpl. rewrite Hfr. destruct HN as [Hv Hnc]. left. split.
+    + rewrite lastm_app. simpl. rewrite Hv. unfold held_sum; simpl.
+      match goal with |- context [<[i := ?t]> (ths s)] =>
+        pose proof (held_sum_insert (ths s) i th t Hth) as Hs; assert (Hsz2 : held t = held th - 1) by (unfold held at 1; simpl; exact Hsz) end.
+      pose proof (held_one _ _ _ Hth). unfold held_sum in *. lia.
+    + intros i' th' H'. destruct (insert_cases _ _ _ _ _ _ Hth H') as [[-> ->]|[? H'']]; simpl; [done|eauto].
 Qed.
 
 (* ----- the uniqueness load of try_reclaim / reserve ----- *)
